@@ -9,7 +9,16 @@ import pipeline
 import seeds
 
 SPACE, COMMENT, NEWLINE = 26, 1, 27
-BLOCK_BODIES = [b"", b" c ", b"x := 1", b" * / ", b"**", b" \"q\" ", b"//", b" a\n b "]
+BLOCK_BODIES = [b"", b" c ", b"x := 1", b" * / ", b"**", b" \"q\" ", b"//", b" a\n b ",
+                # bodies that start or end with the characters of the delimiters (round 5: C12-6, `/*/` taken as a whole comment)
+                b"/", b"/ x := 2 /", b"*", b"/*", b"/ print(\"hidden\")\n/", b"* /", b"/ *", b"\n/", b"/\n", b"/**", b"//*"]
+
+
+def rand_block_body(rng):
+    while True:
+        body = "".join(rng.choice("/* x\n\"/*") for _ in range(rng.randint(0, 6))).encode()
+        if b"*/" not in body and not body.endswith(b"*"):
+            return body
 LINE_BODIES = [b"", b" note", b" /* not a block", b" */ x", b"\"", b"// more"]
 
 
@@ -36,7 +45,7 @@ def relayout(rng, lexemes):
             elif k < 0.75:
                 s += b"\t"
             else:
-                s += b"/*" + rng.choice(BLOCK_BODIES) + b"*/"
+                s += b"/*" + (rng.choice(BLOCK_BODIES) if rng.random() < 0.7 else rand_block_body(rng)) + b"*/"
         return bytes(s)
 
     def newline_run():
@@ -56,7 +65,7 @@ def relayout(rng, lexemes):
             elif k < 0.8:
                 s += rng.choice([b"", b"\t"]) + b"//" + rng.choice(LINE_BODIES) + b"\n"
             else:
-                s += b"/*" + rng.choice(BLOCK_BODIES) + b"*/\n"
+                s += b"/*" + (rng.choice(BLOCK_BODIES) if rng.random() < 0.7 else rand_block_body(rng)) + b"*/\n"
         return bytes(s)
 
     i = 0
